@@ -375,6 +375,37 @@ const COMMENTS: [&str; 10] = [
     "# trailing  ",
 ];
 
+/// A comment line: fixed oddities, or what exporters write (with counts that need not be
+/// true — multi-object files repeat them per object).
+fn comment_line(rng: &mut Rng) -> String {
+    if rng.chance(1, 2) {
+        return (*rng.pick(&COMMENTS)).to_string();
+    }
+    let n = match rng.below(4) {
+        0 => 0,
+        1 => rng.small(12),
+        2 => rng.small(100_000),
+        _ => *rng.pick(&[1u64, 3, 255, 256, 65535, 65536, 4294967295, 4294967296, 18446744073709551615]),
+    };
+    let m = rng.small(50);
+    match rng.below(14) {
+        0 => format!("# {n} vertices"),
+        1 => format!("# {n} faces"),
+        2 => format!("# {n} vertex normals"),
+        3 => format!("# {n} texture coords"),
+        4 => format!("# {n} vertices, {m} faces"),
+        5 => format!("# {n} polygons - {m} triangles"),
+        6 => format!("# Vertices: {n}"),
+        7 => format!("# Faces: {n}"),
+        8 => format!("#vertex count = {n}"),
+        9 => format!("# {n} elements"),
+        10 => "# Blender v2.79 (sub 0) OBJ File: ''".to_string(),
+        11 => "# www.blender.org".to_string(),
+        12 => format!("# object Cube.{n:03}"),
+        _ => format!("# 3ds Max Wavefront OBJ Exporter v0.97b - (c)2007 guruware - File Created: 0{m}.0{m}.20{m:02} 1{m:02}"),
+    }
+}
+
 pub fn gen_obj(rng: &mut Rng) -> GenObj {
     WIDE.with(|w| w.set(false));
     let is_wide = rng.chance(1, 14);
@@ -553,7 +584,8 @@ fn gen_obj_inner(rng: &mut Rng) -> GenObj {
     let final_nl = rng.chance(2, 3);
     let n = ordered.len();
     if rng.below(100) < noise_rate {
-        push_line(&mut text, *rng.pick(&COMMENTS), rng, false, true);
+        let c = comment_line(rng);
+        push_line(&mut text, &c, rng, false, true);
     }
     for (i, l) in ordered.iter().enumerate() {
         push_line(&mut text, l, rng, i + 1 == n, final_nl);
@@ -568,11 +600,14 @@ fn gen_obj_inner(rng: &mut Rng) -> GenObj {
                     let c = if wide() {
                         format!("{}# {}", indent(rng), "long comment f 1 2 3 ".repeat(rng.usize(5, 500)))
                     } else {
-                        format!("{}{}", indent(rng), rng.pick(&COMMENTS))
+                        format!("{}{}", indent(rng), comment_line(rng))
                     };
                     push_line(&mut text, &c, rng, false, true)
                 }
-                _ => push_line(&mut text, *rng.pick(&COMMENTS), rng, false, true),
+                _ => {
+                    let c = comment_line(rng);
+                    push_line(&mut text, &c, rng, false, true)
+                }
             }
         }
     }
